@@ -69,17 +69,23 @@ func trimValue(value []byte, tailLength int) ([]byte, error) {
 // SaveKeyValue stores in dirtyData the data keys "touched"
 // It does not care if the data is really dirty as calling this check here will be sub-optimal
 func (tdaw *TrackableDataTrie) SaveKeyValue(key []byte, value []byte) error {
-	var identifier []byte
 	lenValue := uint64(len(value))
 	if lenValue > core.MaxLeafSize {
 		return data.ErrLeafSizeTooBig
 	}
 
-	if lenValue != 0 {
-		identifier = append(key, tdaw.identifier...)
+	if lenValue == 0 {
+		tdaw.dirtyData[string(key)] = value
+		return nil
 	}
 
-	tdaw.dirtyData[string(key)] = append(value, identifier...)
+	// the stored value must not share memory with the caller's key and value buffers
+	valueWithIdentifier := make([]byte, 0, len(value)+len(key)+len(tdaw.identifier))
+	valueWithIdentifier = append(valueWithIdentifier, value...)
+	valueWithIdentifier = append(valueWithIdentifier, key...)
+	valueWithIdentifier = append(valueWithIdentifier, tdaw.identifier...)
+
+	tdaw.dirtyData[string(key)] = valueWithIdentifier
 	return nil
 }
 
